@@ -350,6 +350,10 @@ def _ros_line(rng, word, tier, inplace=None, L=None, stages=None):
     if rng.random() < 0.08:
         ts = rng.choice([-60, -53, -52, -51, -40])       # time steps around / below round_off
     time_step = d(1, ts)
+    if rk == 30 and ts > -40:
+        # a time step with a 25-bit mantissa: exact in binary64, not representable in binary32 (chosen by a value
+        # already drawn, so that the random stream of the other cases is unchanged)
+        time_step = d(16777217, ts - 24)
     # legal controls: h_min <= h_max' = min(time_step, h_max), all powers of two (exact regime)
     hmax_e = rng.choice([None, None, ts - 1, ts + 2, ts - 3])
     hmaxp = ts if hmax_e is None else min(ts, hmax_e)
@@ -415,6 +419,10 @@ def gen_bemock(rng, tier):
         rtol = rng.choice([d(1, -4), d(1, -8), d(0)])
         small = rng.choice([d(1, -20), d(1, -6)])
         nw = rng.randrange(1, 30)
+        if nw == 7:
+            time_step = d(1, -60 if max_iter > 2 else -53)   # far below / at the machine epsilon: still a step to integrate
+        elif nw == 11:
+            time_step = d(16777217, -24)                     # 25-bit mantissa: not a binary32 number
         # scripted multiplier of the linear solve: 0 = converge at once, 1 = keep the full residual, small = converge
         ws = [rng.choice([d(0), d(0), d(1), d(1), d(1, -1), d(1, -12), d(-1)]) for _ in range(nw)]
         t = [str(inplace), str(L), str(ncells), str(nspec), hstart, str(max_iter), "5"] + reds + [time_step] + P + q + y0 + \
@@ -703,6 +711,14 @@ def gen_rosmock_special(rng, tier):
         k = rng.randrange(ne)
         t[pos + 2 * k] = rng.choice(["0", "1"])
         t[pos + 2 * k + 1] = "9999"
+        if len(out) % 3 == 0:
+            # h_min above the whole time step: every attempt has H < h_min, which forces acceptance of finite errors -
+            # and must not let a NaN / Inf error norm through
+            ncells, nspec = int(t[3]), int(t[4])
+            ts_pos = pos - 1 - 2 * ncells * nspec - 2 * nspec - 2 * nspec * nspec - 2
+            hmin_pos = ts_pos - 6
+            m_ts, e_ts = int(t[ts_pos]), int(t[ts_pos + 1])
+            t[hmin_pos], t[hmin_pos + 1] = "1", str(e_ts + (1 if m_ts == 1 else 25))
         out.append(" ".join(t))
     return out
 
